@@ -29,7 +29,8 @@ def merge_text(text: str | None, node: Any) -> str | None:
             text = (text or "") + node.tail
         node = node.getnext()
 
-    return text
+    # An empty CDATA section is no character data, expat reports none either
+    return text or None
 
 
 class LxmlEventHandler(XmlHandler):
